@@ -38,6 +38,8 @@ def message(kinds=("async", "async", "async", "sync", "bad", "unknown"),
     def build(d: Dict[str, Any]) -> Dict[str, Any]:
         if d["kind"] != "bad":
             d.pop("bad")
+        if d["kind"] != "unknown":
+            d.pop("uname")
         if not d["cleanup"] or d["kind"] not in ("async", "shared", "late", "dyn", "plaincls"):
             d.pop("cleanup")
         return d
@@ -51,6 +53,8 @@ def message(kinds=("async", "async", "async", "sync", "bad", "unknown"),
         "timeout": st.sampled_from(list(timeouts)),
         "cleanup": st.sampled_from(list(cleanups)),
         "bad": BAD,
+        # names no task is registered under - some of them look like a registered one (other module part, other case, stray separators)
+        "uname": st.sampled_from(["no.such.task", "no.such.task", "other.module:atask", "elsewhere:stask", "Atask", "atask.", "atask:", ":atask", "pkg.mod:atask:", "atask "]),
     }).map(build)
 
 
